@@ -361,6 +361,94 @@ Section ShamirProofs.
     unfold I. apply Ipoly_at_node; [assumption|right; assumption].
   Qed.
 
+  (** ** One share fewer never reconstructs *)
+  (** strong form of [poly_roots]: all coefficients are zero *)
+  Lemma qdiv_all_zero cs a : Forall (fun c => c = 0) (qdiv cs a) -> peval cs a = 0 -> Forall (fun c => c = 0) cs.
+  Proof.
+    induction cs as [|c cs IH]; intros Hq Ha; [constructor|].
+    destruct cs as [|c' cs'].
+    - cbn in Ha. constructor; [|constructor]. rewrite <- Ha. ring.
+    - change (qdiv (c :: c' :: cs') a) with (peval (c' :: cs') a :: qdiv (c' :: cs') a) in Hq.
+      inversion Hq as [|? ? Hhd Htl]; subst.
+      assert (Hrest : Forall (fun c => c = 0) (c' :: cs')) by (apply IH; assumption).
+      constructor; [|assumption]. cbn [peval] in Ha. cbn [peval] in Hhd. rewrite Hhd in Ha. rewrite <- Ha. ring.
+  Qed.
+
+  Lemma poly_roots_coeffs : forall xs cs, NoDup xs -> length cs <= length xs ->
+    (forall x, In x xs -> peval cs x = 0) -> Forall (fun c => c = 0) cs.
+  Proof.
+    induction xs as [|a xs IH]; intros cs Hnd Hlen Hroots.
+    - destruct cs; [constructor|cbn in Hlen; lia].
+    - inversion Hnd as [|? ? Hnotin Hnd']; subst.
+      apply (qdiv_all_zero cs a); [|apply Hroots; left; reflexivity].
+      apply IH; [assumption| |].
+      + rewrite qdiv_length. cbn [length] in Hlen. lia.
+      + intros x Hx. pose proof (Hroots x (or_intror Hx)) as Hpx.
+        rewrite (qdiv_spec cs a x), (Hroots a (or_introl eq_refl)) in Hpx.
+        assert (Hprod : (x - a) * peval (qdiv cs a) x = 0) by (rewrite <- Hpx; ring).
+        destruct (fmul_eq_0 _ _ Hprod) as [E|E]; [|assumption].
+        exfalso. apply Hnotin. apply fsub_eq_0 in E. subst. assumption.
+  Qed.
+
+  Lemma nth_padd p q k : nth k (padd p q) 0 = nth k p 0 + nth k q 0.
+  Proof.
+    revert q k. induction p as [|a p IH]; intros q k; cbn [padd].
+    - destruct k; cbn [nth]; ring.
+    - destruct q as [|b q]; [destruct k; cbn [nth]; ring|].
+      destruct k as [|k]; cbn [nth]; [reflexivity|apply IH].
+  Qed.
+
+  Lemma nth_last (l : list F) : nth (length l - 1) l 0 = last l 0.
+  Proof.
+    induction l as [|a t IH]; [reflexivity|]. destruct t as [|b t']; [reflexivity|].
+    change (last (a :: b :: t') 0) with (last (b :: t') 0). rewrite <- IH.
+    cbn [length]. replace (S (S (length t')) - 1)%nat with (S (S (length t') - 1)) by lia. reflexivity.
+  Qed.
+
+  Lemma reveal_Ipoly shares : reveal shares = peval (Ipoly (map fst shares) shares) 0.
+  Proof.
+    rewrite reveal_fsum, peval_Ipoly. set (kxs := map fst shares). clearbody kxs.
+    induction shares as [|p t IH]; [reflexivity|]. cbn [fsum fold_right].
+    fold (fsum (fun iv => lagrange kxs (fst iv) * snd iv) t). fold (fsum (fun iv => Lz kxs (fst iv) 0 * snd iv) t).
+    rewrite IH, lagrange_Lz. reflexivity.
+  Qed.
+
+  (** exactly t-1 shares (t-1 >= 1) of a polynomial of degree exactly t-1 at distinct non-zero
+      points never reconstruct the secret *)
+  Theorem shamir_one_fewer_differs_lemma secret coeffs xs :
+    NoDup xs -> (forall x, In x xs -> x <> 0) -> length xs = length coeffs -> last coeffs 0 <> 0 ->
+    reveal (map (fun x => (x, eval_share secret coeffs x)) xs) <> secret.
+  Proof.
+    intros Hnd Hnz Hlen Htop Heq.
+    set (p := secret :: coeffs) in *.
+    set (shares := map (fun x => (x, eval_share secret coeffs x)) xs) in *.
+    assert (Hk : map fst shares = xs) by (unfold shares; rewrite map_map; cbn [fst]; apply map_id).
+    rewrite reveal_Ipoly, Hk in Heq.
+    set (I := Ipoly xs shares) in *.
+    assert (HlenI : length I <= length xs).
+    { apply length_Ipoly. intros iv Hin. unfold shares in Hin. apply in_map_iff in Hin.
+      destruct Hin as (x & <- & Hx). exact Hx. }
+    set (D := padd p (pscale (0 - 1) I)).
+    assert (HD : Forall (fun c => c = 0) D).
+    { apply (poly_roots_coeffs (0 :: xs)).
+      - constructor; [|assumption]. intros Hin. apply (Hnz 0 Hin). reflexivity.
+      - unfold D. rewrite length_padd, length_pscale. unfold p. cbn [length]. lia.
+      - intros x [<-|Hx]; unfold D; rewrite peval_padd, peval_pscale.
+        + rewrite Heq. unfold p. cbn [peval]. ring.
+        + unfold I. rewrite <- Hk at 1. rewrite (Ipoly_at_node shares x (eval_share secret coeffs x)).
+          * rewrite eval_share_peval. fold p. ring.
+          * rewrite Hk. assumption.
+          * unfold shares. apply in_map_iff. exists x. split; [reflexivity|assumption]. }
+    (* the coefficient of degree t-1 of D is the top coefficient of p *)
+    assert (Hc : nth (length coeffs) D 0 = last coeffs 0).
+    { unfold D. rewrite nth_padd. rewrite (nth_overflow (pscale (0 - 1) I)) by (rewrite length_pscale; lia).
+      unfold p. destruct coeffs as [|c0 cs] eqn:E; [exfalso; apply Htop; reflexivity|].
+      rewrite <- E. replace (length coeffs) with (S (length coeffs - 1)) by (rewrite E; cbn [length]; lia).
+      cbn [nth]. rewrite nth_last. ring. }
+    apply Htop. rewrite <- Hc.
+    rewrite Forall_forall in HD. destruct (nth_in_or_default (length coeffs) D 0) as [Hin|E]; [apply HD; assumption|assumption].
+  Qed.
+
   (** * Reconstruction "in the exponent": any module over the field *)
   Section Module.
     Variable M : Type.
@@ -568,6 +656,12 @@ Section Closed.
     exists coeffs, length coeffs = length xs /\
       forall x y, In (x, y) (combine xs ys) -> eval_share F f0 fadd fmul s coeffs x = y.
   Proof. destruct HF as (H1 & H2 & H3). apply (shamir_fewer_unconstrained_lemma F f0 f1 fadd fsub fmul fdiv fopp finvf); assumption. Qed.
+
+  Theorem shamir_one_fewer_closed secret coeffs xs :
+    NoDup xs -> (forall x, In x xs -> x <> f0) -> length xs = length coeffs -> last coeffs f0 <> f0 ->
+    reveal F f0 f1 fadd fsub fmul finv (map (fun x => (x, eval_share F f0 fadd fmul secret coeffs x)) xs)
+    <> secret.
+  Proof. destruct HF as (H1 & H2 & H3). apply (shamir_one_fewer_differs_lemma F f0 f1 fadd fsub fmul fdiv fopp finvf); assumption. Qed.
 
   Variable M : Type.
   Variable gzero : M.
